@@ -8,7 +8,7 @@ mod expand;
 mod expr;
 pub use expr::Eval;
 
-pub use expand::{expand, expand_eval, ExpandError, IfMissing};
+pub use expand::{expand, expand_eval, expand_keep_escapes, ExpandError, IfMissing};
 #[cfg(kaspar030_laze_verif)]
 pub use expand::ExpandError as ExpandErrorV;
 
@@ -219,10 +219,12 @@ impl Env {
             values: &HashMap<&String, String>,
         ) -> Result<EnvKey, expand::ExpandError> {
             Ok(match envkey {
-                EnvKey::Single(key) => EnvKey::Single(expand(key, values, IfMissing::Ignore)?),
+                EnvKey::Single(key) => {
+                    EnvKey::Single(expand_keep_escapes(key, values, IfMissing::Ignore)?)
+                }
                 EnvKey::List(keys) => EnvKey::List(
                     keys.iter()
-                        .map(|x| expand(x, values, IfMissing::Ignore))
+                        .map(|x| expand_keep_escapes(x, values, IfMissing::Ignore))
                         .collect::<Result<_, _>>()?,
                 ),
             })
